@@ -1029,6 +1029,10 @@ class LangServer:
                 line = file_obj.strip_comment(line)
                 if (line == "") or (line[0] == "#"):
                     continue
+                # The continuation mark in column 6 of a fixed-form line ("$", a
+                # digit, a letter) is not part of the name that may follow it
+                if file_obj.fixed and FRegex.FIXED_CONT.match(line):
+                    line = line[:5] + " " + line[6:]
                 for match in NAME_REGEX.finditer(line):
                     var_def = self.get_definition(file_obj, i, match.start(1) + 1)
                     if var_def is None:
